@@ -117,6 +117,10 @@ func drawBase(t *rapid.T, x *X, maxLen int) *Case {
 	}
 	// an option value is immutable: a tenth of the cases pass every option value twice
 	c.Opts.DupOpts = gspec.U(t, 10, "dupopts") == 0
+	// options are independent setters: a third of the cases give them in another order
+	if gspec.U(t, 3, "optorder") == 0 {
+		c.Opts.OptOrder = 1 + gspec.U(t, 12, "optorderk")
+	}
 	// the three entry points are one parser: a fifth of the cases go through ParseReader or
 	// ParseFile (the file is written by the adapter; its name is the filename of the case)
 	switch gspec.U(t, 10, "entrypoint") {
